@@ -146,6 +146,7 @@ func runC06(c *Ctx) {
 			c.OK("C06.R11", key, ihp.Pos(), "one of them is strictly higher, whatever the order")
 		}
 	}
+	importRules(c, runC10, map[string]string{"C10.R10": "C06.R12"}, map[string]string{"C06.R12": "a rule written with $dnsrewrite carries a rewrite (or is rejected), so the rewrite filter removes it before the precedence is applied (shared with C10.R10)"})
 	importRules(c, runC08, map[string]string{"C08.R1": "C06.R8", "C08.R2": "C06.R8"}, map[string]string{"C06.R8": "rules disabled by badfilter never survive the filter, whatever their position (shared with C08.R1/R2)"})
 	checkDocumentOnly(c, "C06.R9")
 	importRules(c, runC11, map[string]string{"C11.R5": "C06.R10"}, nil)
